@@ -79,6 +79,17 @@ static void pred_pca(const Case &c) {
     M R = P.X; for (int k = 0; k < kk; k++) for (int i = 0; i < n; i++) for (int j = 0; j < p; j++) R(i, j) -= T(i, k) * L(j, k);
     if (kk == rank) { err = fro(R); ld rest = 0; for (size_t q = (size_t)rank; q < sv.size(); q++) rest += sv[q] * sv[q]; VF_CHECK(err <= 1e-6L * nE + 1e-12L + sqrtl(rest) + 2 * noise, "all %d defined components taken but |X0 - T P'| = %.3Lg (|X0| = %.3Lg)", rank, err, nE); }
   }
+  // projecting the training matrix through a model that holds null components: finite, and the defined scores are reproduced
+  {
+    matrix *ps; initMatrix(&ps); PCAScorePredictor(mx, m, (size_t)want, ps);
+    VF_CHECK((int)ps->row == n && (int)ps->col == want, "PCAScorePredictor shape %s for a model with %d components", dims(ps).c_str(), want);
+    ld tscale = 0; for (int i = 0; i < n; i++) for (int k = 0; k < want; k++) tscale = std::max(tscale, fabsl(T(i, k)));
+    for (int k = 0; k < want; k++) for (int i = 0; i < n; i++) {
+      VF_CHECK(std::isfinite(ps->data[i][k]), "PCAScorePredictor: predicted score (%d,%d) is not finite for a model whose component %d is %s (rank %d)", i, k, k, k < rank ? "defined" : "beyond the rank", rank);
+      if (k < rank) VF_CHECK(fabsl(ps->data[i][k] - T(i, k)) <= 1e-6L * tscale + 1e-12L + 2 * noise, "PCAScorePredictor(training) (%d,%d) = %.12g, model score %.12Lg", i, k, ps->data[i][k], T(i, k));
+    }
+    DelMatrix(&ps);
+  }
   DelPCAModel(&m); DelMatrix(&mx);
   tag(ticks(0) < 100 ? "pca-iterations<100" : ticks(0) < 10000 ? "pca-iterations<1e4" : "pca-iterations>=1e4");
 }
@@ -137,12 +148,36 @@ static void pred_pls(const Case &c) {
     tag("first-LV-defined");
   } else tag("first-LV-undefined(X'Y=0)");
   for (size_t k = 0; k < m->xvarexp->size; k++) VF_CHECK(!std::isnan(m->xvarexp->data[k]), "x explained variance of LV %zu is NaN", k);
+  // latent variables beyond the rank of X have nothing left to be built from: they must not change the fit
+  {
+    V svx = singular_values(Px.X); int xrank = numerical_rank(svx, 1e-9L);
+    // only when what lies beyond the rank is rounding residue (an exactly rank-deficient X), not a small but genuine direction
+    bool exactlow = xrank >= (int)svx.size() || svx[(size_t)xrank] <= 1e-14L * svx[0];
+    if (xrank >= 1 && want > xrank && exactlow && all_finite(from_lib(m->recalculated_y))) {
+      for (int j = 0; j < ny; j++) { ld sc = 0; for (int i = 0; i < n; i++) sc = std::max(sc, fabsl(Y(i, j)));
+        for (int a = xrank; a < want; a++) for (int i = 0; i < n; i++) {
+          ld d0 = (ld)m->recalculated_y->data[i][(size_t)ny * a + j] - (ld)m->recalculated_y->data[i][(size_t)ny * (xrank - 1) + j];
+          VF_CHECK(fabsl(d0) <= 1e-6L * (sc + 1e-300L), "fitted response %d of object %d changes by %.3Lg when latent variable %d is added although X has rank %d (|y| up to %.3Lg)", j, i, d0, a + 1, xrank, sc);
+        }
+      }
+    }
+  }
   DelPLSModel(&m); DelMatrix(&mx); DelMatrix(&my);
 }
 
 // ------------------------------------------------------------------------------------------------
+// a tied configuration perturbed by 2^-k: two eigenvalues of the consensus problem differ by ~2^-k relative, the power iteration
+// needs ~2^k passes to separate them under the 1e-18 threshold - "returns after a bounded number of iterations" must still hold
+static void gen_cpca_neartie(Draw &d, Case &c) {
+  int k = (int)d.i(18, 30), scaling = d.coin(50) ? 0 : -1; double e = std::ldexp(1.0, -k);
+  c.p = {4, 2, scaling, 1, 1, 1};    // two blocks of one variable each
+  M A0(4, 1), A1(4, 1); A0(0, 0) = 1; A1(0, 0) = 1; A0(1, 0) = -1; A1(1, 0) = -1; A0(2, 0) = 1 + e; A1(2, 0) = -(1 + e); A0(3, 0) = -(1 + e); A1(3, 0) = 1 + e;
+  put(c, A0); put(c, A1);
+  c.nontrivial = true; c.tags.push_back(fmt("near-tie-2^-%d", k));
+}
 static void gen_cpca(Draw &d, Case &c) {
-  int n = (int)d.i(3, 10), nb = (int)d.i(2, 3), scaling = (int)d.i(0, 5), npc = (int)d.i(1, 3);
+  if (d.coin(12)) { gen_cpca_neartie(d, c); return; }
+  int n = (int)d.i(3, 10), nb = (int)d.i(2, 3), scaling = (int)d.i(-1, 5), npc = (int)d.i(1, 3);
   c.p = {n, nb, scaling, npc}; int constblocks = 0;
   for (int b = 0; b < nb; b++) {
     int w = (int)d.i(1, 4), kind = (int)d.i(0, 2);   // 0 exact low rank, 1 all-constant block, 2 zero block
@@ -165,6 +200,9 @@ static void pred_cpca(const Case &c) {
   for (size_t k = 0; k < m->block_expvar->size; k++) for (size_t b = 0; b < m->block_expvar->d[k]->size; b++)
     VF_CHECK(!std::isnan(m->block_expvar->d[k]->data[b]), "CPCA explained variance of block %zu at component %zu is NaN", b, k);
   if (total > 0) for (size_t i = 0; i < m->super_scores->row; i++) VF_CHECK(std::isfinite(m->super_scores->data[i][0]), "first super score (%zu) is not finite although the data are not null", i);
+  // data that are not null have a first component: it must not come back null
+  if (total > 0) { ld t2 = 0; for (size_t i = 0; i < m->super_scores->row; i++) t2 += (ld)m->super_scores->data[i][0] * m->super_scores->data[i][0];
+    VF_CHECK(t2 > 0 && m->total_expvar->data[0] > 0, "first CPCA component is null (explained variance %.3g) although the preprocessed data have a sum of squares of %.3Lg (scaling %d)", m->total_expvar->data[0], total, scaling); }
   DelCPCAModel(&m); DelTensor(&t);
 }
 
